@@ -458,4 +458,13 @@ carried by the part (Split) and present on the wire from version `since` on -/
 def optionArrives (pkg option : String) (since apiVersion : Int) : Bool :=
   splitCarries pkg option && decide (since ≤ apiVersion)
 
+/-! ## the dial address of a broker's connection group -/
+
+/-- transport.go newBrokerConnGroup: the address string handed to the dialer for a broker listed at `a` (the way it is
+built is regenerated: `net.JoinHostPort` brackets a host that contains a colon, plain concatenation does not) -/
+def dialAddress (a : Addr) : String :=
+  match KV.Gen.Routing.brokerDialAddress with
+  | .joinHostPort => if a.1.contains ':' || a.1.contains '%' then s!"[{a.1}]:{a.2}" else s!"{a.1}:{a.2}"
+  | _ => s!"{a.1}:{a.2}"
+
 end KV.Routing
